@@ -3,6 +3,7 @@ package c10
 
 import (
 	"bytes"
+	"errors"
 	"fmt"
 	"io"
 	"testing"
@@ -55,8 +56,21 @@ func readAll(stream []byte, rd int) (data []byte, err error, panicked string) {
 	defer r.Close()
 	var buf bytes.Buffer
 	_, err = io.Copy(&buf, r)
+	if err != nil {
+		// the error ends the data: asking again must not produce more of it
+		// (a caller that retries would otherwise get the stream with a hole)
+		p := make([]byte, 4096)
+		for k := 0; k < 3; k++ {
+			n, e := r.Read(p)
+			if n != 0 || e == nil {
+				return buf.Bytes(), fmt.Errorf("%w [then Read #%d after the error returned %d bytes, err %v]", errResumed, k+1, n, e), ""
+			}
+		}
+	}
 	return buf.Bytes(), err, ""
 }
+
+var errResumed = errors.New("the reader went on after reporting an error")
 
 func runG(c GCase, rec *h.Rec) {
 	o := c.S.Run(10 * time.Second)
@@ -99,6 +113,10 @@ func runG(c GCase, rec *h.Rec) {
 			return
 		}
 		where := classify(ms, cut)
+		if errors.Is(err, errResumed) {
+			rec.Failf("prefix of %d/%d bytes (cut %s): %v", cut, len(stream), where, err)
+			return
+		}
 		if !bytes.HasPrefix(model, data) {
 			rec.Failf("prefix of %d/%d bytes (cut %s): the reader returned %d bytes that are not a prefix of the original data", cut, len(stream), where, len(data))
 			return
@@ -114,9 +132,12 @@ func runG(c GCase, rec *h.Rec) {
 				return
 			}
 		}
-		if atStart && cut >= 28 {
+		// HasEOF is false for every proper prefix, unless the prefix happens to
+		// end with 28 bytes identical to the marker (an empty block written with
+		// the default header)
+		if atStart || cut < 64 || cut%7 == int(c.SubVal)%7 {
 			has, _ := bgzf.HasEOF(bytes.NewReader(stream[:cut]))
-			if has && !bytes.Equal(stream[cut-28:cut], bz.EOFMarker) {
+			if has && (cut < 28 || !bytes.Equal(stream[cut-28:cut], bz.EOFMarker)) {
 				rec.Failf("HasEOF reports true for a prefix of %d bytes that does not end with the marker", cut)
 				return
 			}
@@ -175,6 +196,15 @@ func runG(c GCase, rec *h.Rec) {
 			damaged[pos] = v
 			data, err, ok := run(damaged)
 			if !ok {
+				return
+			}
+			if errors.Is(err, errResumed) && !bytes.HasPrefix(model, data) {
+				rec.Failf("byte %d changed from %#x to %#x: %v, and the data returned is not a prefix of the original", pos, orig, v, err)
+				return
+			}
+			if errors.Is(err, errResumed) {
+				f, _ := fieldAt(ms, pos)
+				rec.Failf("byte %d (%s) changed from %#x to %#x: %v", pos, f, orig, v, err)
 				return
 			}
 			if err == nil && !bytes.Equal(data, model) {
